@@ -63,7 +63,10 @@ func Index(json any) any {
 	// Build lexical index
 	lexicalIndex := make(types.ObjectMap)
 	for _, sourceMapId := range classIndex["http://a.ml/vocabularies/document-source-maps#SourceMap"] {
-		sourceMap := nodeIndex[sourceMapId].(types.ObjectMap)
+		sourceMap, ok := nodeIndex[sourceMapId].(types.ObjectMap)
+		if !ok {
+			continue
+		}
 		lexicalContainer := sourceMap["http://a.ml/vocabularies/document-source-maps#lexical"] // can be map or array of maps
 		handleSingleOrMultipleNodes(&lexicalContainer, func(node *types.ObjectMap) {
 			addLexicalEntryFrom(node, &nodeIndex, &lexicalIndex, locationIndex)
@@ -78,9 +81,20 @@ func Index(json any) any {
 }
 
 func addLexicalEntryFrom(node, nodeIndex, lexicalIndex *types.ObjectMap, locIndex *LocationIndex) {
-	lexicalEntry := (*nodeIndex)[(*node)["@id"].(string)].(types.ObjectMap)
-	id := lexicalEntry["http://a.ml/vocabularies/document-source-maps#element"].(string)
-	value := lexicalEntry["http://a.ml/vocabularies/document-source-maps#value"]
+	// malformed lexical entries (no node, element that is not an id, range that is not a string) are ignored
+	lexicalEntryId, _ := (*node)["@id"].(string)
+	lexicalEntry, ok := (*nodeIndex)[lexicalEntryId].(types.ObjectMap)
+	if !ok {
+		return
+	}
+	id, ok := lexicalEntry["http://a.ml/vocabularies/document-source-maps#element"].(string)
+	if !ok {
+		return
+	}
+	value, ok := lexicalEntry["http://a.ml/vocabularies/document-source-maps#value"].(string)
+	if !ok {
+		return
+	}
 
 	/**
 	Index:
@@ -100,8 +114,8 @@ func addLexicalEntryFrom(node, nodeIndex, lexicalIndex *types.ObjectMap, locInde
 func createLocationIndex(nodeIndex *types.ObjectMap, classIndex *map[string][]string) *LocationIndex {
 	sourceInformation := (*classIndex)["http://a.ml/vocabularies/document#BaseUnitSourceInformation"]
 	if len(sourceInformation) > 0 {
-		sourceInformationNode := (*nodeIndex)[sourceInformation[0]].(types.ObjectMap)
-		defaultLocation := sourceInformationNode["http://a.ml/vocabularies/document#rootLocation"].(string)
+		sourceInformationNode, _ := (*nodeIndex)[sourceInformation[0]].(types.ObjectMap)
+		defaultLocation, _ := sourceInformationNode["http://a.ml/vocabularies/document#rootLocation"].(string)
 		additionalLocations := sourceInformationNode["http://a.ml/vocabularies/document#additionalLocations"]
 		idToLocation := make(types.StringMap)
 		handleSingleOrMultipleNodes(&additionalLocations, func(node *types.ObjectMap) {
@@ -115,11 +129,20 @@ func createLocationIndex(nodeIndex *types.ObjectMap, classIndex *map[string][]st
 }
 
 func addElementsOfLoc(node *types.ObjectMap, nodeIndex *types.ObjectMap, idToLocation *types.StringMap) {
-	locationNode := (*nodeIndex)[(*node)["@id"].(string)].(types.ObjectMap)
-	locationValue := locationNode["http://a.ml/vocabularies/document#location"].(string)
+	locationNodeId, _ := (*node)["@id"].(string)
+	locationNode, ok := (*nodeIndex)[locationNodeId].(types.ObjectMap)
+	if !ok {
+		return
+	}
+	locationValue, ok := locationNode["http://a.ml/vocabularies/document#location"].(string)
+	if !ok {
+		return
+	}
 	elementIds := locationNode["http://a.ml/vocabularies/document#elements"]
 	handleSingleOrMultipleNodes(&elementIds, func(node *types.ObjectMap) {
-		(*idToLocation)[(*node)["@id"].(string)] = locationValue
+		if elementId, ok := (*node)["@id"].(string); ok {
+			(*idToLocation)[elementId] = locationValue
+		}
 	})
 }
 
